@@ -177,3 +177,331 @@ def rule_sequence_epilogue(ctx: Ctx, rule: str, which: set[str] | None = None) -
          'as expected' if not bad_empty else sorted(set(bad_empty))[0][:200], "fnmatch.translate('[b-a]') must compile and match nothing; '[!b-a]' matches anything")
     emit('return', not bad_ret, '(_restrict_sequence() if pathname or after_start) + class text', 'as expected' if not bad_ret else sorted(set(bad_ret))[0][:200],
          "globmatch('a/b', 'a[/]b') / fnmatch('.a', '[.]a'): a bracket neither crosses a separator nor matches a leading dot")
+
+
+# ---------------------------------------------------------------------------------------------- the scan loops
+def loop_table(repo: Repo, module: str, cls: str) -> tuple[list[Path], str, list[Path]]:
+    """Decision table of one (arbitrary) iteration of the scan loop of <cls>._sequence; prologue decisions are fixed to the
+    plain case (first character is nothing special) -- whatever the loop body reads is forgotten on entry anyway.
+    Returns the rows and the tag of the scan character."""
+    def build() -> tuple[list[Path], str, list[Path]]:
+        import ast as _ast
+        from .c03 import sub_function
+        from ..symeval import Obj, SymEval
+        fi = repo.func(module, f'{cls}._sequence')
+        body = fi.node.body
+        cut = next((i for i, st in enumerate(body) if any(isinstance(x, _ast.While) for x in _ast.walk(st))), None)
+        if cut is None:
+            raise AnalysisError(f'{cls}._sequence: scan loop not found')
+        sub = sub_function(fi, body[:cut + 1], 'through-loop')
+        preset = {f"next(i) == {c!r}": False for c in ('!', '^', '[', '-', ']')}
+        ev = SymEval(repo, inline=False, max_paths=20000, explore_handlers=True)
+        params = [p for p in fi.params() if p != 'self']
+        paths = ev.tabulate(sub, {params[0]: Opaque('i')}, Obj((module, cls)), preset=preset)
+        scan = None
+        for p in paths:
+            for k in p.decisions:
+                if k.startswith('loop@while:') and k.endswith(" == ']'"):
+                    scan = k[:-len(" == ']'")]
+        if scan is None:
+            raise AnalysisError(f'{cls}._sequence: the loop is not controlled by a comparison of the scan character with `]`')
+        return [p for p in paths if p.decisions.get(f"{scan} == ']'") is False], scan, paths
+    return cached(repo, f'seqrules:loop:{module}:{cls}', build)
+
+
+def _char(p: Path, scan: str) -> Any:
+    import ast as _ast
+    for k, v in p.decisions.items():
+        if v and k.startswith(scan + ' == '):
+            return _ast.literal_eval(k[len(scan) + 4:])
+    return None
+
+
+def rule_scan_loops(ctx: Ctx, rule: str, which: set[str] | None = None) -> None:
+    if which is None:
+        ctx.text(rule, 'one iteration of the bracket scan loops (WcParse, WcSplit, _GlobSplit; decision tables, exception handlers '
+                       'explored): an unescaped `/` aborts the bracket (StopIteration) when pathname (always in the glob splitter); a '
+                       'backslash hands the iterator to _references with sequence=True and a PathNameException from there becomes '
+                       'StopIteration; `[` tries a POSIX class; in the parser the set operators & | ~ are escaped, and the "last token was '
+                       'a POSIX class" marker is cleared by every iteration that does not itself consume a class')
+    repo = ctx.repo
+
+    def emit(key: str, ok: bool, site: str, expect: str, got: str, witness: str = '') -> None:
+        if which is None or key.rsplit('/', 1)[1] in which:
+            ctx.ob(rule, key, ok, site, expect, got, witness=witness)
+    for module, cls, has_pn in ((WP, 'WcParse', True), (WP, 'WcSplit', True), ('glob', '_GlobSplit', False)):
+        fi = repo.func(module, f'{cls}._sequence')
+        site = repo.loc(module, fi.node)
+        rows, scan, every = loop_table(repo, module, cls)
+        bad_s, bad_r, bad_c, bad_p = [], [], [], []
+        seen = set()
+        for p in rows:
+            focus(p)
+            c = _char(p, scan)
+            seen.add(c)
+            refs = [e for e in p.of('call') if e[1] == f'{module}:{cls}._references']
+            if c == '/':
+                pn = p.decisions.get('self.pathname') if has_pn else True
+                if (p.raised == 'StopIteration') != bool(pn) or (has_pn and pn is None):
+                    bad_s.append(f'pathname={pn}: raises {p.raised}')
+            elif c == '\\':
+                exc = [e for e in p.events if e[0] == 'except']
+                if exc:
+                    hn = exc[0][3]
+                    if hn == 'PathNameException' and p.raised != 'StopIteration':
+                        bad_c.append(f'PathNameException handler ends with {p.raised}')
+                    if hn == 'StopIteration' and cls != 'WcParse':
+                        pass
+                    continue
+                if len(refs) != 1 or [_tag(a) for a in refs[0][2]] + [f'{k}={_tag(v)}' for k, v in refs[0][3].items()] not in (['i', 'True'], ['i', 'sequence=True']):
+                    bad_r.append(f'_references({[_tag(a) for a in refs[0][2]] if refs else None})')
+            elif c == '[':
+                posix = [e for e in p.of('call') if e[1] in (f'{module}:{cls}._handle_posix', 'i.match')]
+                if not posix:
+                    bad_p.append('`[` inside a bracket is not offered to the POSIX-class matcher')
+        handlers = {e[3] for p in every for e in p.events if e[0] == 'except'}
+        for p in every:
+            if any(e[0] == 'except' and e[3] == 'PathNameException' for e in p.events) and p.raised != 'StopIteration':
+                bad_c.append(f'PathNameException handler ends with {p.raised}')
+        if 'PathNameException' not in handlers:
+            bad_c.append(f'no PathNameException handler around the escape (handlers: {sorted(handlers)})')
+        if not {'/', '\\', '['} <= seen:
+            raise AnalysisError(f'{cls}._sequence: the loop table does not distinguish `/`, `\\\\`, `[` (sees {sorted(map(str, seen))})')
+        emit(f'{module}:{cls}._sequence/abort-on-slash', not bad_s, site, 'c == `/`' + (' and pathname' if has_pn else '') + ': raise StopIteration; otherwise go on',
+             'as expected' if not bad_s else bad_s[0], "globmatch('a[/]b', 'a[/]b') -- `[` is literal when the bracket contains a separator")
+        emit(f'{module}:{cls}._sequence/escape-in-bracket', not bad_r, site, 'c == `\\\\`: self._references(i, True)', 'as expected' if not bad_r else bad_r[0],
+             "glob('[a\\\\/|b]', flags=SPLIT): the escaped separator ends the bracket, so the `|` splits")
+        emit(f'{module}:{cls}._sequence/pathname-exception-converted', not bad_c, site, 'except PathNameException: raise StopIteration', 'as expected' if not bad_c else bad_c[0])
+        emit(f'{module}:{cls}._sequence/posix-in-loop', not bad_p, site, 'c == `[`: a POSIX class is consumed as a unit', 'as expected' if not bad_p else bad_p[0],
+             "translate('[a[:alpha:]|]', SPLIT) must not split inside the bracket")
+    # ---- parser only: set operators, POSIX marker
+    rows, scan, _every = loop_table(repo, WP, 'WcParse')
+    fi = repo.func(WP, 'WcParse._sequence')
+    site = repo.loc(WP, fi.node)
+    so = repo.const(WP, 'SET_OPERATORS')
+    bad_o, bad_m = [], []
+    lp = None
+    for p in rows:
+        for e in p.of('iterend'):
+            for k, v in e[3].items():
+                if isinstance(v, Opaque) and v.tag.startswith(f'{WP}:WcParse._handle_posix('):
+                    lp = k
+    if lp is None:
+        raise AnalysisError('WcParse._sequence: no loop variable holds the result of _handle_posix')
+    n_ops = 0
+    for p in rows:
+        focus(p)
+        c = _char(p, scan)
+        if c in so:
+            n_ops += 1
+            vals = [e[2][0] for e in p.of('call') if e[1].endswith('.append') and e[2]] + \
+                   [e[2][1] for e in p.of('call') if e[1] == f'{WP}:WcParse._sequence_range_check' and len(e[2]) > 1]
+            want = ('\\', '{' + scan + '}')
+            if not any(isinstance(v, Tok) and v.parts == want for v in vals):
+                bad_o.append(f'{c!r}: emits {[ _tag(v)[:30] for v in vals]}')
+        for e in p.of('iterend'):
+            if e[2] != 'next':
+                continue
+            v = e[3].get(lp)
+            entry = f'loop@while:{lp}'
+            ok = v is False or (isinstance(v, Opaque) and v.tag.startswith(f'{WP}:WcParse._handle_posix(')) or \
+                (isinstance(v, Opaque) and v.tag == entry and p.decisions.get(entry) is False)
+            if not ok:
+                bad_m.append(f'after an iteration on {c!r} the marker is {_tag(v)[:50]}')
+    emit(f'{WP}:WcParse._sequence/set-operators-escaped', not bad_o and n_ops >= 3, site, 'c in & | ~: the character is emitted as `\\\\` + c', f'{n_ops} rows agree' if not bad_o else bad_o[0],
+         "fnmatch('&', '[&&]') must not trigger Python's nested-set syntax")
+    emit(f'{WP}:WcParse._sequence/posix-marker-cleared', not bad_m, site,
+         'at the end of an iteration the marker is False unless this iteration consumed a POSIX class', 'as expected' if not bad_m else sorted(set(bad_m))[0],
+         "fnmatch('c', '[[:digit:]a-f]') must be True: the hyphen after an ordinary character is a range")
+
+
+# ---------------------------------------------------------------------------------------------- WcParse.root: one token
+PARSER_VOCABULARY = ('set_after_start', 'set_start_dir', 'reset_dir_track', 'update_dir_state', '_restrict_sequence', '_restrict_extended_slash',
+                     '_sequence_range_check', '_handle_posix', '_sequence', '_references', '_handle_dot', '_handle_star', 'clean_up_inverse',
+                     'parse_extend', 'consume_path_sep', 'root', '_parse', 'parse')
+
+def root_rows(repo: Repo) -> tuple[list[Path], str]:
+    """Decision table of one iteration of the token loop of WcParse.root (the loop statement alone; `current` is the
+    parameter, the iterator an unknown); returns rows and the tag of the current character."""
+    def build() -> tuple[list[Path], str]:
+        import ast as _ast
+        from .c03 import sub_function
+        from ..symeval import Obj, SymEval
+        fi = repo.func(WP, 'WcParse.root')
+        loops = [st for st in fi.node.body if isinstance(st, _ast.For)]
+        if len(loops) != 1:
+            raise AnalysisError('WcParse.root: expected one token loop')
+        sub = sub_function(fi, [loops[0]], 'token-loop')
+        # helper methods that exist today stay calls (they are the vocabulary of the rule); anything new is a refactoring helper and is followed
+        known = {f'{WP}:WcParse.{n}' for n in PARSER_VOCABULARY}
+        ev = SymEval(repo, inline=True, no_inline=known, max_paths=20000, explore_handlers=True,
+                     call_models={'re.escape': lambda fr, n, a, k: Opaque(f're.escape({_tag(a[0])})')})
+        params = [p for p in fi.params() if p != 'self']
+        paths = ev.tabulate(sub, {params[0]: Opaque('pattern'), params[1]: Opaque('current')}, Obj((WP, 'WcParse'), {'sep': Opaque('self.sep')}))
+        it = _tag(Opaque(_ast.unparse(loops[0].iter)))
+        return paths, f'elem({it})'
+    return cached(repo, 'seqrules:root', build)
+
+
+def rule_root_loop(ctx: Ctx, rule: str, which: set[str] | None = None) -> None:
+    if which is None:
+        ctx.text(rule, 'one token of WcParse.root (decision table with effects in order, handlers explored): an unescaped `/` in path mode '
+                       'arms the segment start, closes pending `!(…)` groups, emits separator + one-or-more, swallows further separators '
+                       'and clears matchbase -- in that order; outside path mode it emits the bare separator; an escape emits what '
+                       '_references returns, and when that started a directory the pending groups are closed, further separators '
+                       'swallowed and matchbase cleared BEFORE the value is emitted; every token ends with update_dir_state()')
+    repo = ctx.repo
+    fi = repo.func(WP, 'WcParse.root')
+    site = repo.loc(WP, fi.node)
+    rows, C = root_rows(repo)
+    one = repo.const(WP, '_ONE_OR_MORE')
+    bad_s, bad_e, bad_u = [], [], []
+    n_s = n_e = 0
+
+    def seq(p: Path) -> list[str]:
+        out = []
+        for e in p.events:
+            if e[0] == 'call':
+                nm = e[1].split(':')[-1]
+                if nm.endswith('.append'):
+                    out.append('append(' + ', '.join(_tag(a) for a in e[2]) + ')')
+                elif nm.startswith('WcParse.'):
+                    out.append(nm[len('WcParse.'):] + '(' + ', '.join(_tag(a) for a in e[2]) + ')')
+            elif e[0] == 'store' and e[1] == 'self.matchbase':
+                out.append(f'matchbase={e[2]!r}')
+        return out
+    for p in rows:
+        focus(p)
+        d = p.decisions
+        ch = None
+        for k, v in d.items():
+            if v and k.startswith(C + ' == '):
+                import ast as _ast
+                ch = _ast.literal_eval(k[len(C) + 4:])
+        s_ = seq(p)
+        if d.get('self.extend') and any(k.startswith(f'{WP}:WcParse.parse_extend(') and v for k, v in d.items()):
+            continue
+        if ch == '/':
+            n_s += 1
+            pn = d.get('self.pathname')
+            want = ['set_start_dir()', 'clean_up_inverse(current)', f'append({{self.sep}}+{one})', 'consume_path_sep(i)', 'matchbase=False', 'update_dir_state()'] \
+                if pn else ['append(self.sep)', 'update_dir_state()']
+            if pn is None or s_ != want:
+                bad_s.append(f'pathname={pn}: {s_}')
+        elif ch == '\\':
+            exc = [e for e in p.events if e[0] == 'except']
+            if exc:
+                continue
+            n_e += 1
+            ds = d.get('self.dir_start')
+            val = f'{WP}:WcParse._references(i)'
+            want = ['_references(i)'] + (['clean_up_inverse(current)', 'consume_path_sep(i)', 'matchbase=False'] if ds else []) + [f'append({val})', 'update_dir_state()']
+            if ds is None or s_ != want:
+                bad_e.append(f'dir_start={ds}: {s_}')
+        if not p.raised and not any(e[0] == 'except' and e[3] == 'DotException' for e in p.events):
+            if not s_ or s_[-1] != 'update_dir_state()':
+                bad_u.append(f'{ch!r}: ends with {s_[-1:] }')
+    if n_s < 2 or n_e < 2:
+        raise AnalysisError(f'WcParse.root: separator rows {n_s}, escape rows {n_e}')
+
+    def emit(key: str, ok: bool, expect: str, got: str, witness: str = '') -> None:
+        if which is None or key in which:
+            ctx.ob(rule, f'{WP}:WcParse.root/{key}', ok, site, expect, got, witness=witness)
+    emit('separator-token', not bad_s, 'pathname: set_start_dir, clean_up_inverse(current), append(sep + one-or-more), consume_path_sep(i), matchbase=False; else append(sep)',
+         f'{n_s} rows agree' if not bad_s else bad_s[0][:220], "globmatch('a//b', 'a//b') / globmatch('a/.b', 'a/*') / MATCHBASE 'a/b' on 'x/a/b'")
+    emit('escape-token', not bad_e, '_references(i); if it started a directory: clean_up_inverse, consume_path_sep, matchbase=False; then append(value)',
+         f'{n_e} rows agree' if not bad_e else bad_e[0][:220], r"FORCEWIN: globmatch('a\\b', '!(a)\\\\b', EXTGLOB) must be False -- the group is closed before the separator is emitted")
+    emit('token-epilogue', not bad_u, 'every token ends with update_dir_state()', 'as expected' if not bad_u else bad_u[0][:160],
+         "fnmatch('a.b', 'a?b')... the segment-start state must be advanced after every token")
+
+
+def rule_star_epilogue(ctx: Ctx, rule: str) -> None:
+    """WcParse._handle_star after reset_dir_track(): a globstar always re-arms the segment start, also when it is folded into a
+    preceding globstar; a plain star is appended and does not."""
+    import ast as _ast
+    from .c03 import sub_function
+    from ..symeval import Obj, SymEval
+    repo = ctx.repo
+    fi = repo.func(WP, 'WcParse._handle_star')
+    body = fi.node.body
+    cut = max((i for i, st in enumerate(body) if isinstance(st, _ast.Expr) and isinstance(st.value, _ast.Call) and
+               _ast.unparse(st.value.func) == 'self.reset_dir_track'), default=None)
+    if cut is None:
+        raise AnalysisError('_handle_star: reset_dir_track() before the emission not found')
+    sub = sub_function(fi, body[cut + 1:], 'emission')
+    gdiv = repo.const(WP, '_GLOBSTAR_DIV')
+    ev = SymEval(repo, inline=True, no_inline={f'{WP}:WcParse.{n}' for n in PARSER_VOCABULARY}, max_paths=2000)
+    params = [p for p in fi.params() if p != 'self']
+    paths = ev.tabulate(sub, {params[0]: Opaque('i'), params[1]: Opaque('current')}, Obj((WP, 'WcParse'), {'sep': Opaque('self.sep')}))
+    bad = []
+    n_g = n_p = 0
+    for p in paths:
+        focus(p)
+        star = any(e[0] == 'call' and e[1].endswith('.format') and repr(gdiv) in e[1] for e in p.events)
+        calls = [e[1].split('.')[-1] for e in p.of('call') if e[1].startswith(f'{WP}:WcParse.')]
+        if star:
+            n_g += 1
+            if not calls or calls[-1] != 'set_start_dir':
+                bad.append(f'globstar path {sorted(k[:40] for k in p.decisions)} ends with {calls[-1:]}')
+        else:
+            n_p += 1
+            if 'set_start_dir' in calls:
+                bad.append('a plain star re-arms the segment start')
+    if n_g < 2 or n_p < 1:
+        raise AnalysisError(f'_handle_star: emission table has {n_g} globstar / {n_p} plain rows')
+    ctx.ob(rule, f'{WP}:WcParse._handle_star/globstar-rearms-start', not bad, repo.loc(WP, fi.node),
+           'every globstar emission path -- new or folded into the previous globstar -- ends with set_start_dir(); a plain star does not call it',
+           f'{n_g}+{n_p} rows agree' if not bad else bad[0][:200], witness="globmatch('.hidden', '**/**/*', GLOBSTAR) must be False: the token after a folded `**/` still starts a segment")
+
+
+def rule_split_points(ctx: Ctx, rule: str) -> None:
+    """_GlobSplit.split, one character of the scan loop: where a pattern is cut into path parts."""
+    import ast as _ast
+    from .c03 import sub_function
+    from ..symeval import Obj, SymEval
+    repo = ctx.repo
+    fi = repo.func('glob', '_GlobSplit.split')
+    loops = [st for st in fi.node.body if isinstance(st, _ast.For)]
+    if len(loops) < 1:
+        raise AnalysisError('_GlobSplit.split: scan loop not found')
+    sub = sub_function(fi, [loops[0]], 'scan')
+    ev = SymEval(repo, inline=False, explore_handlers=True, max_paths=5000)
+    paths = ev.tabulate(sub, {}, Obj(('glob', '_GlobSplit')))
+    C = f'elem({_ast.unparse(loops[0].iter)})'
+    bad = []
+    seen = set()
+    R = 'glob:_GlobSplit._references(i)'
+    for p in paths:
+        focus(p)
+        d = p.decisions
+        if d.get('self.extend') and any(k.startswith('glob:_GlobSplit.parse_extend(') and v for k, v in d.items()):
+            continue
+        ch = None
+        for k, v in d.items():
+            if v and k.startswith(C + ' == '):
+                ch = _ast.literal_eval(k[len(C) + 4:])
+        cuts = [e[2][0] for e in p.of('call') if e[1].endswith('.append') and e[2]]
+        shape = [(_tag(c[0]), c[1]) if isinstance(c, tuple) and len(c) == 2 else _tag(c) for c in cuts]
+        exc = any(e[0] == 'except' for e in p.events)
+        if ch == '/':
+            seen.add('/')
+            if shape != [('(i.index-1)', 0)]:
+                bad.append(f'`/`: cuts {shape}')
+        elif ch == '\\':
+            seen.add('\\')
+            if exc:
+                if shape:
+                    bad.append('escape that raised still cuts')
+                continue
+            ba = d.get('self.bslash_abort')
+            want = (bool(ba) and d.get(f"{R} == '\\\\'") is True) or d.get(f"{R} == '/'") is True
+            if (shape == [('(i.index-2)', 1)]) != want or (not want and shape) or ba is None:
+                bad.append(f"escape: bslash_abort={ba} returned-backslash={d.get(R + chr(32) + '==' + chr(32) + repr(chr(92)))} returned-slash={d.get(R + ' == ' + repr('/'))}: cuts {shape}")
+        else:
+            if shape:
+                bad.append(f'{ch!r}: cuts {shape}')
+    if seen != {'/', '\\'}:
+        raise AnalysisError(f'_GlobSplit.split: scan table does not distinguish `/` and `\\\\` ({sorted(seen)})')
+    ctx.ob(rule, 'glob:_GlobSplit.split/split-points', not bad, repo.loc('glob', fi.node),
+           'a part ends at an unescaped `/`, and at an escaped character only when _references reports `/`, or `\\\\` while backslash is a separator',
+           f'{len(paths)} rows agree' if not bad else sorted(set(bad))[0][:220], witness=r"glob(r'd/a\\b') on POSIX must look for the file named `a\b` inside d, not walk d/a/b")
